@@ -232,3 +232,25 @@ Print Assumptions C02_src_pin_linux_copy_node.
 Print Assumptions C02_src_pin_parfile_copy.
 Print Assumptions C02_src_pin_parblock_copy.
 Print Assumptions C02_src_pin_operations_copy_file.
+
+(* ---- with backups enabled an existing destination entry is RENAMED: the name it gets must be new, or an entry that no source
+   maps onto is replaced — the functions that choose that name, pinned as validated ---- *)
+From XcpPins Require Import Pin_backup_get_backup_path Pin_backup_next_backup_num Pin_backup_needs_backup Pin_backup_ls_file_dir Pin_backup_is_num_backup Pin_backup_has_backup.
+Theorem C02_src_pin_backup_get_backup_path : pin_unchanged name_backup_get_backup_path.
+Proof. exact pin_backup_get_backup_path. Qed.
+Theorem C02_src_pin_backup_next_backup_num : pin_unchanged name_backup_next_backup_num.
+Proof. exact pin_backup_next_backup_num. Qed.
+Theorem C02_src_pin_backup_needs_backup : pin_unchanged name_backup_needs_backup.
+Proof. exact pin_backup_needs_backup. Qed.
+Theorem C02_src_pin_backup_ls_file_dir : pin_unchanged name_backup_ls_file_dir.
+Proof. exact pin_backup_ls_file_dir. Qed.
+Theorem C02_src_pin_backup_is_num_backup : pin_unchanged name_backup_is_num_backup.
+Proof. exact pin_backup_is_num_backup. Qed.
+Theorem C02_src_pin_backup_has_backup : pin_unchanged name_backup_has_backup.
+Proof. exact pin_backup_has_backup. Qed.
+Print Assumptions C02_src_pin_backup_get_backup_path.
+Print Assumptions C02_src_pin_backup_next_backup_num.
+Print Assumptions C02_src_pin_backup_needs_backup.
+Print Assumptions C02_src_pin_backup_ls_file_dir.
+Print Assumptions C02_src_pin_backup_is_num_backup.
+Print Assumptions C02_src_pin_backup_has_backup.
